@@ -412,6 +412,9 @@ class WebVTTWriter(BaseWriter):
                 # ATTENTION: This is where the plain unicode node content is
                 # finally encoded as WebVTT.
                 s += self._encode_illegal_characters(node.content) or "&nbsp;"
+                # The end of the previous text node and the start of this
+                # one may form the forbidden substring "-->" as well
+                s = s.replace("-->", "--&gt;")
                 current_layout = node.layout_info
             elif node.type_ == CaptionNode.STYLE:
                 resulting_style = self._calculate_resulting_style(
